@@ -120,6 +120,16 @@ def main():
             if is_set:
                 return lambda: (t.add(kk), None)[1]
             return lambda: t.__setitem__(kk, emb.val(1))
+        if op == 'pop':
+            return lambda: emb.rv(t.pop(kk))
+        if op == 'sdf':
+            return lambda: emb.rv(t.setdefault(kk, emb.val(1)))
+        if op == 'ins':
+            return lambda: t.insert(kk, emb.val(1))
+        if op == 'popmin':
+            return lambda: (lambda x: [x[0].v, emb.rv(x[1])])(t.popitem())
+        if op == 'popmins':
+            return lambda: t.pop().v
         if is_set:
             return lambda: t.remove(kk)
         return lambda: t.__delitem__(kk)
@@ -145,10 +155,13 @@ def main():
         tree = ent['tree']
         path_acts = [payloads[pi]['act'] for pi in g.path_to(tree)]
         before = setify(tree)
-        for op in ('get', 'set', 'del'):
+        # (composite calls, where the specification has them: pop, setdefault, insert, popitem / pop-smallest)
+        extra = [o for o in ((['popmins'] if is_set else ['pop', 'sdf', 'ins', 'popmin'])) if o in ent['calls']]
+        for op in ['get', 'set', 'del'] + extra:
             per_k = ent['calls'][op]
             for k in range(1, len(per_k) + 1):
                 where = dict(impl=impl, is_set=is_set, sizes=[job['leaf'], job['internal']], tree=tree, op=op, k=k)
+                counts['calls_' + op] = counts.get('calls_' + op, 0) + 1
                 t = build(path_acts)
                 if P.proj(t, emb, is_set) != before:
                     mism.append(dict(where, kind='from-state', model=before, real=P.proj(t, emb, is_set)))
